@@ -42,22 +42,22 @@ func (p *NegotiationParams) Validate() error {
 		return errors.Errorf("unknown encoding type %q", p.Encoding)
 	}
 
+	// 圧縮レベルとウィンドウビットは、圧縮タイプの指定有無にかかわらず範囲を検証します
+	// （CompressConfigはタイプが未指定でもこれらの値を使用します）。
+	if p.CompressLevel != nil && (*p.CompressLevel < 0 || *p.CompressLevel > 9) {
+		return errors.Errorf("unknown compress level %d", *p.CompressLevel)
+	}
+	if p.CompressWindowBits != nil && (*p.CompressWindowBits < 0 || *p.CompressWindowBits > 32) {
+		return errors.Errorf("invalid compress window bits %d", *p.CompressWindowBits)
+	}
+
 	switch p.Compress {
 	case "":
 		// ok
 	case compress.TypePerMessage, compress.TypeContextTakeOver:
-		if p.CompressLevel != nil {
-			if *p.CompressLevel < 0 || *p.CompressLevel > 9 {
-				return errors.Errorf("unknown compress level %d", p.CompressLevel)
-			}
-		} else {
+		if p.CompressLevel == nil {
 			compLevel := DefaultCompressionLevel
 			p.CompressLevel = &compLevel
-		}
-		if p.CompressWindowBits != nil {
-			if *p.CompressWindowBits < 0 || *p.CompressWindowBits > 32 {
-				return errors.Errorf("invalid compress window bits %d", p.CompressWindowBits)
-			}
 		}
 	default:
 		return errors.Errorf("unknown compress type %q", p.Compress)
